@@ -256,6 +256,10 @@ var GossipSleep = time.Millisecond
 // PexSeedMode: the next environment runs its PEX reactor in seed mode (answers one request per inbound peer and hangs up).
 var PexSeedMode bool
 
+// TxBroadcastOff: the next environment runs its transaction pool reactor with broadcasting disabled (a supported
+// configuration: tx_pool.TxPoolConfig.Broadcast = false).
+var TxBroadcastOff bool
+
 // scratchDir makes a directory under the run's scratch area (created by the parent process, removed by
 // it at the end of the run; tmpfs if available).
 func scratchDir() string {
@@ -421,7 +425,7 @@ func (e *Env) wire(fs *configs.FastSyncConfig) {
 	e.Cons = consensus.NewConsensusManager(v.CS, fs)
 	e.Cons.SetEventBus(v.Bus)
 	e.add("CONSENSUS", e.Cons)
-	e.TxR = tx_pool.NewReactor(tx_pool.TxPoolConfig{Broadcast: true}, v.Pool)
+	e.TxR = tx_pool.NewReactor(tx_pool.TxPoolConfig{Broadcast: !TxBroadcastOff}, v.Pool)
 	e.add("TXPOOL", e.TxR)
 	e.EvR = evidence.NewReactor(v.EvPool)
 	e.add("EVIDENCE", e.EvR)
